@@ -14,6 +14,8 @@ def run(tier, seed):
         "a $domain= rule against a request without source hostname is left unspecified (the statement is silent)",
         "match-case needs a full-regex rule, which is outside the spec's pattern language: not covered",
     ]
+    nl, rq = (6, 40) if tier == "quick" else (80, 80)
+    netcommon.corpus_stage(v, wd, seed, nl, rq)
     return v.finish("model_checking",
                     "every rule of {7 rule shapes} x {type-option sets} x {any,3p,1p} x {4 domain-list variants} as a single-rule "
                     "engine (optimised and not) and through NetworkMatchable::matches, against every request of "
